@@ -230,3 +230,26 @@ def unwrap_all(e):
             e = e[2][0]
         else:
             return e
+
+
+def lifted_guards(fn, skip=()):
+    """reject guards of in-crate helpers whose error the function propagates with `?`: a guard that lies on every path to
+    the helper's success exits is lifted into the caller (predicate rewritten to the caller's operands, block = the block of
+    the propagating `?`), so that extracting a check into a helper function does not change any verdict"""
+    out = []
+    for callee, pg, call in propagated_calls(fn):
+        if callee.id in skip or callee.id == fn.id:
+            continue
+        cs = success_exits(callee)
+        if not cs:
+            continue
+        for g in guards_of(callee):
+            if g.kind != 'reject' or g.pred[0] == 'fails':
+                continue
+            if not covers_all_paths(callee, g, exits=cs):
+                continue
+            lg = Guard(fn, pg.block, g.cond, g.label, pg.tgt, 'reject', g.kinds, g.span, pg.others)
+            lg.pred = subst_args(g.pred, call[2])
+            lg.lifted_from = callee.id
+            out.append(lg)
+    return out
